@@ -43,4 +43,7 @@ MUTANTS = [
     m("c11-trifactored-outer-swapped", "R4", "            -2 * np.outer(inv_vector, inv_factor_vector),", "            -2 * np.outer(inv_factor_vector, inv_vector),"),
     m("c11-dense-quadform-cho-solve-convention", "R4", "        inv_matrix_vector = self.inv @ vector\n        return -np.outer(inv_matrix_vector, inv_matrix_vector)", "        inv_matrix_vector = sla.cho_solve((self.factor.array, self.factor.lower), vector)\n        return -np.outer(inv_matrix_vector, inv_matrix_vector)"),
     m("c11-twin-dense-quadform-cho-solve-lower", None, "        inv_matrix_vector = self.inv @ vector\n        return -np.outer(inv_matrix_vector, inv_matrix_vector)", "        inv_matrix_vector = self._sign * sla.cho_solve((self.factor.array, True), vector)\n        return -np.outer(inv_matrix_vector, inv_matrix_vector)", twin=True),
+    m("c11-reciprocal-int-unsafe", "R5", "    def grad_log_abs_det(self) -> NDArray:\n        return 1.0 / self.diagonal", "    def grad_log_abs_det(self) -> NDArray:\n        return np.reciprocal(self.diagonal)", key="int-unsafe"),
+    m("c11-twin-reciprocal-float", None, "    def grad_log_abs_det(self) -> NDArray:\n        return 1.0 / self.diagonal", "    def grad_log_abs_det(self) -> NDArray:\n        return np.reciprocal(self.diagonal.astype(np.float64))", twin=True),
+    m("c11-twin-divide", None, "    def grad_log_abs_det(self) -> NDArray:\n        return 1.0 / self.diagonal", "    def grad_log_abs_det(self) -> NDArray:\n        return np.divide(1.0, self.diagonal)", twin=True),
 ]
